@@ -45,14 +45,17 @@ pub struct Case {
     /// bit 2: --no-perms, bit 3: --fsync
     #[serde(default)]
     pub extra_opts: u8,
+    /// -T: only the first source is used and it maps onto d/t itself (pre-created by the first collision, if any)
+    #[serde(default)]
+    pub no_target_dir: bool,
 }
 
 pub fn strategy() -> BoxedStrategy<Case> {
     let src = (prop_oneof![5 => Just(0u8), 2 => Just(1u8), 1 => Just(2u8), 1 => Just(3u8), 3 => Just(4u8)], prop_oneof![4 => 0u32..3000, 1 => 100000u32..600000], prop::collection::vec(gent(TOP_SAFE, true), 1..8))
         .prop_map(|(kind, len, children)| Src { kind, len, children });
     let col = (any::<u16>(), 0u8..6, prop::bool::weighted(0.7)).prop_map(|(which, dest_kind, top)| Collision { which, dest_kind, top });
-    (prop::collection::vec(src, 1..5), prop::collection::vec(col, 0..3), 0u8..4, common_flags(), prop::option::weighted(0.17, super::c06::run_cfg()), prop_oneof![3 => Just(0u8), 2 => 0u8..16])
-        .prop_map(|(srcs, collisions, extras, flags, sched, extra_opts)| Case { srcs, collisions, extras, flags, sched, extra_opts })
+    (prop::collection::vec(src, 1..5), prop::collection::vec(col, 0..3), 0u8..4, common_flags(), prop::option::weighted(0.17, super::c06::run_cfg()), prop_oneof![3 => Just(0u8), 2 => 0u8..16], prop::bool::weighted(0.12))
+        .prop_map(|(srcs, collisions, extras, flags, sched, extra_opts, no_target_dir)| Case { srcs, collisions, extras, flags, sched, extra_opts, no_target_dir })
         .boxed()
 }
 
@@ -72,9 +75,13 @@ pub fn build(c: &Case, root: &[u8]) -> (Vec<Ent>, Inv, usize) {
     inv.fsync = c.extra_opts & 8 != 0;
     let mut tops: Vec<(Vec<u8>, Vec<u8>)> = vec![]; // (src path, dst path)
     let mut below: Vec<(Vec<u8>, Vec<u8>)> = vec![];
-    for (i, s) in c.srcs.iter().enumerate() {
+    if c.no_target_dir {
+        inv.no_target_dir = true;
+        inv.dest = b"d/t".to_vec();
+    }
+    for (i, s) in c.srcs.iter().enumerate().take(if c.no_target_dir { 1 } else { usize::MAX }) {
         let name = format!("s{}", i).into_bytes();
-        let dst = join(b"d", &name);
+        let dst = if c.no_target_dir { b"d/t".to_vec() } else { join(b"d", &name) };
         match s.kind % 5 {
             0 => ents.push(Ent::file(&name, Content::data(s.len as u64, i as u8)).with_mtime(1_500_000_000, 1)),
             1 => ents.push(Ent::link(&name, b"by/keep")),
@@ -84,7 +91,7 @@ pub fn build(c: &Case, root: &[u8]) -> (Vec<Ent>, Inv, usize) {
                 let t = build_tree(&name, &s.children, root, 2);
                 for e in t.iter().skip(1) {
                     if !matches!(e.kind, Kind::Dir) {
-                        below.push((e.path.clone(), join(b"d", &e.path)));
+                        below.push((e.path.clone(), if c.no_target_dir { [b"d/t".as_slice(), &e.path[name.len()..]].concat() } else { join(b"d", &e.path) }));
                     }
                 }
                 ents.extend(t);
@@ -188,6 +195,9 @@ pub fn judge(c: &Case, rec: &mut Rec) -> Verdict {
     if !inv.backup.is_empty() {
         rec.class(format!("with-backup={}", inv.backup));
     }
+    if c.no_target_dir {
+        rec.class(format!("no-target-dir|{}|exit={}", pair, if ok { "0" } else { "!0" }));
+    }
     let key = format!("{}|{}|{}|{}|{}|exit={}", driver, pair, if shadowed { "deep" } else { "top" }, pos, if c.sched.is_some() { "scheduled" } else { "plain" }, if ok { "0" } else { "!0" });
     let new = rec.class(key);
     rec.class(format!("sched|{}", sched_name.split('(').next().unwrap_or("")));
@@ -275,6 +285,6 @@ impl Check for C08 {
         }
     }
     fn required_classes(&self, _tier: Tier) -> Vec<String> {
-        ["F->F", "F->L(dangling)", "L->", "Fifo->", "Sock->", "->D", "|late|", "|early|", "|deep|", "scheduled", "sched|WorkersFirst", "with-backup=numbered", "with-backup=auto"].iter().map(|s| s.to_string()).collect()
+        ["F->F", "F->L(dangling)", "L->", "Fifo->", "Sock->", "->D", "|late|", "|early|", "|deep|", "scheduled", "sched|WorkersFirst", "with-backup=numbered", "with-backup=auto", "no-target-dir|F->F", "no-target-dir|none|exit=0"].iter().map(|s| s.to_string()).collect()
     }
 }
